@@ -460,10 +460,11 @@ func c13(c *Ctx) {
 		}
 	}
 
-	c.R.Rule("R13.10", "informer tracking is atomic with the wrapped cache: every call into the embedded cache is made with InformerTrackingCache.mx held", 5,
+	c.R.Rule("R13.10", "informer tracking is atomic with the wrapped cache: every call into the embedded cache is made with InformerTrackingCache.mx held", 3,
 		"between marking an informer (in)active and the wrapped cache acting on it another goroutine sees the wrong state: a StartWatches that runs while an informer is being removed registers its handler on the informer that is about to be dropped and is never re-established")
 	{
 		n := 0
+		covered := map[string]bool{}
 		for _, f := range c.P.PkgFunctions("internal/engine") {
 			if !strings.HasPrefix(load.FuncName(f), "(*internal/engine.InformerTrackingCache).") {
 				continue
@@ -480,6 +481,7 @@ func c13(c *Ctx) {
 					continue
 				}
 				n++
+				covered[x.Common().Method.Name()] = true
 				weakest := locks.W
 				seenCall := false
 				for _, cu := range r.Calls {
@@ -490,11 +492,17 @@ func c13(c *Ctx) {
 						}
 					}
 				}
+				if (!seenCall || weakest == locks.None) && f.Parent() != nil {
+					// a closure handed to a helper of the same type that holds the lock while it calls it
+					if m, ok := closureRunsUnder(w.res, f, "engine.InformerTrackingCache.mx"); ok {
+						seenCall, weakest = true, m
+					}
+				}
 				c.R.Check(seenCall && weakest != locks.None, site(x)+" under-mx", c.pos(x.Pos()), "the wrapped cache is called with the tracking lock held", "the wrapped cache is called without InformerTrackingCache.mx: the active set and the informers can be observed out of step")
 			}
 		}
-		if n < 5 {
-			c.R.Unknown("InformerTrackingCache: wrapped calls", "", "expected the Get/List/GetInformer/GetInformerForKind/RemoveInformer calls into the embedded cache")
+		if !covered["GetInformer"] || !covered["GetInformerForKind"] || !covered["RemoveInformer"] {
+			c.R.Unknown("InformerTrackingCache: wrapped calls", "", "expected the GetInformer/GetInformerForKind/RemoveInformer calls into the embedded cache")
 		}
 	}
 
@@ -837,4 +845,73 @@ func growthAppends(v ssa.Value) (apps []ssa.CallInstruction, clean bool) {
 	}
 	walk(v)
 	return
+}
+
+// closureRunsUnder: the closure cl is only ever passed, as an argument, to
+// functions of the analysed set that do nothing with that parameter but call
+// it, and every such call is made with lock id held: the weakest mode held.
+func closureRunsUnder(res map[*ssa.Function]*locks.Result, cl *ssa.Function, id string) (locks.Mode, bool) {
+	parent := cl.Parent()
+	if parent == nil {
+		return locks.None, false
+	}
+	weakest, uses := locks.W, 0
+	for _, b := range parent.Blocks {
+		for _, in := range b.Instrs {
+			mc, ok := in.(*ssa.MakeClosure)
+			if !ok || mc.Fn != ssa.Value(cl) || mc.Referrers() == nil {
+				continue
+			}
+			for _, r := range *mc.Referrers() {
+				call, isCall := r.(ssa.CallInstruction)
+				if !isCall {
+					if _, dbg := r.(*ssa.DebugRef); dbg {
+						continue
+					}
+					return locks.None, false
+				}
+				g := call.Common().StaticCallee()
+				if g == nil || res[g] == nil {
+					return locks.None, false
+				}
+				args := call.Common().Args
+				for i, a := range args {
+					if a != ssa.Value(mc) {
+						continue
+					}
+					pi := i
+					if len(g.Params) != len(args) {
+						return locks.None, false
+					}
+					param := g.Params[pi]
+					if param.Referrers() == nil {
+						return locks.None, false
+					}
+					for _, pr := range *param.Referrers() {
+						pc, ok := pr.(*ssa.Call)
+						if !ok || pc.Call.Value != ssa.Value(param) {
+							if _, dbg := pr.(*ssa.DebugRef); dbg {
+								continue
+							}
+							return locks.None, false
+						}
+						found := false
+						for _, cu := range res[g].Calls {
+							if cu.Call == pc {
+								found = true
+								uses++
+								if m := cu.Held[locks.LockID(id)]; m < weakest {
+									weakest = m
+								}
+							}
+						}
+						if !found {
+							return locks.None, false
+						}
+					}
+				}
+			}
+		}
+	}
+	return weakest, uses > 0 && weakest != locks.None
 }
